@@ -252,13 +252,17 @@ _C19_FUNCS = [
     ("pdtable/io/excel.py", None, "write_excel"),
     ("pdtable/io/_excel_openpyxl.py", None, "read_sheets"),
     ("pdtable/io/_excel_openpyxl.py", None, "write_excel_openpyxl"),
+    ("pdtable/io/_excel_xlsxwriter.py", None, "write_excel_xlsxwriter"),
     ("pdtable/io/load/_loaders.py", "FileReader", "read"),
     ("pdtable/io/load/_loaders.py", "IncludeReader", "read"),
     ("pdtable/io/load/_orchestrators.py", None, "queued_load"),
     ("pdtable/io/load/_orchestrators.py", None, "load_files"),
 ]
 _C19_OPENERS = {"open", "load_workbook", "ZipFile", "fdopen", "TemporaryFile", "NamedTemporaryFile"}
-_C19_WRITE_CALLS = {"_table_to_csv", "_append_table_to_openpyxl_worksheet", "save", "write_excel_func"}
+_C19_WRITE_CALLS = {"_table_to_csv", "_append_table_to_openpyxl_worksheet", "_append_table_to_xlsxwriter_worksheet",
+                    "save", "write", "write_excel_func"}
+# constructors that create the target file although they are not called `open` (dotted name as written)
+_C19_OPENERS_DOTTED = {"xlsxwriter.Workbook"}
 
 
 def _c19_callee(call):
@@ -323,7 +327,7 @@ def _c19_scan(fn):
             points.append(["yield", list(ctx)])
         elif isinstance(node, ast.Call):
             name = _c19_callee(node)
-            if name in _C19_OPENERS and not in_item:
+            if (name in _C19_OPENERS or ast.unparse(node.func) in _C19_OPENERS_DOTTED) and not in_item:
                 bare.append(txt(node))
             if name == "close" and isinstance(node.func, ast.Attribute):
                 closes.append(txt(node))
@@ -509,7 +513,35 @@ def item_excel_layout(repo):
             "headers": sorted(headers), "dest": dest, "pattern_calls": pattern_calls}
 
 
+def item_table_handlers(repo):
+    """C07: `TABLE_HANDLERS` of blocks.py — (output form, handler function) pairs, in source order — and the
+    exception class `parse_blocks` raises for a key that is not among them"""
+    tree = _parse(repo, "pdtable/io/parsers/blocks.py")
+    (val,) = _find_assign(tree, "TABLE_HANDLERS")
+    if not isinstance(val, (ast.Tuple, ast.List)):
+        raise ValueError("TABLE_HANDLERS is not a literal tuple")
+    pairs = []
+    for e in val.elts:
+        if not (isinstance(e, (ast.Tuple, ast.List)) and len(e.elts) == 2 and isinstance(e.elts[0], ast.Constant)
+                and isinstance(e.elts[0].value, str) and isinstance(e.elts[1], ast.Name)):
+            raise ValueError("TABLE_HANDLERS entry is not (str literal, function name)")
+        pairs.append([e.elts[0].value, e.elts[1].id])
+    fn = _find_func(tree, "parse_blocks")
+    raised = None
+    for node in ast.walk(fn):
+        if isinstance(node, ast.Try):
+            for h in node.handlers:
+                if h.type is not None and ast.unparse(h.type) == "KeyError":
+                    for st in h.body:
+                        if isinstance(st, ast.Raise) and isinstance(st.exc, ast.Call):
+                            raised = ast.unparse(st.exc.func)
+    if raised is None:
+        raise ValueError("parse_blocks: no `except KeyError: raise X(...)` around the handler lookup")
+    return {"pairs": pairs, "unknown_raises": raised}
+
+
 ITEMS = {
+    "table_handlers": item_table_handlers,
     "marker_pattern": item_marker_pattern,
     "missing_markers": item_missing_markers,
     "onoff": item_onoff,
@@ -621,6 +653,13 @@ def render(vals) -> str:
     L.append("")
     L.append("/-- frame.py `_combine_tables`: methods whose single source is `other` -/")
     L.append(f"def safeMethods : List (List Char) := {lean_strlist(vals['safe_methods'])}")
+    L.append("")
+    L.append("/-- blocks.py `TABLE_HANDLERS`: (output form `to`, handler function); what an unknown `to` raises (C07) -/")
+    L.append("def tableHandlers : List (String × String) := [" + ", ".join(
+        f"({lean_str(k)}, {lean_str(v)})" for k, v in vals["table_handlers"]["pairs"]) + "]")
+    L.append("def tableHandlerKeys : List (List Char) := [" + ", ".join(
+        f"{lean_str(k)}.toList" for k, _ in vals["table_handlers"]["pairs"]) + "]")
+    L.append(f"def unknownFormRaises : String := {lean_str(vals['table_handlers']['unknown_raises'])}")
     L.append("")
     L.append(f"def csvSep : List Char := {lean_str(vals['csv_sep'])}.toList")
     L.append(f"def naRepDefault : List Char := {lean_str(vals['represent']['na_rep'])}.toList")
